@@ -40,6 +40,8 @@ Record msg := mkMsg {
   mopt : option optrec; mtsig : option (name * rdata) }.
 
 Definition tOPT := 41. Definition tTSIG := 250. Definition tSOA := 6. Definition tRRSIG := 46.
+(* Rdata.covers(): RRSIG and SIG rdata belong to the type they cover *)
+Definition is_sigtype (t : Z) : bool := (t =? tRRSIG) || (t =? 24).
 Definition cIN := 1. Definition cNONE := 254. Definition cANY := 255.
 Definition fTC := 512.   (* dns.flags.TC = 0x0200 *)
 
@@ -524,7 +526,7 @@ Section Reader.
     else if rdtype =? 15 then Some [FFix 2; FNameC]
     else if rdtype =? 6 then Some [FNameC; FNameC; FFix 20]
     else if rdtype =? 16 then Some [FTxt]
-    else if rdtype =? 46 then Some [FFix 18; FNameU; FRest]
+    else if (rdtype =? 46) || (rdtype =? 24) then Some [FFix 18; FNameU; FRest]
     else if rdtype =? 250 then Some [FNameA; FFix 8; FCnt16; FFix 2; FMax16 4095; FCnt16]
     (* SPF NINFO AVC RESINFO WALLET: TXTBase *)
     else if zmem rdtype [99; 56; 258; 261; 262] then Some [FTxt]
@@ -832,7 +834,7 @@ Section Read2.
       Ok ((rdata_start + rdl)%nat, force_unique, set_opt m (mkOpt ttl rdclass' os))
     else
       do rd <- dec_rdata wire rdclass' rdtype' origin rdata_start rdl;
-      let covers := if rdtype' =? tRRSIG
+      let covers := if is_sigtype rdtype'
                     then match rd with PB (a :: b :: _) :: _ => a * 256 + b | _ => 0 end
                     else 0 in
       let fu := force_unique || (p_xfr po && (rdtype' =? tSOA)) in
